@@ -58,6 +58,20 @@ pub struct FileSpec {
     /// number, in a `//` line comment, a one-line `/* ... */` block comment or a `/** ... */` one.
     #[serde(default)]
     pub block_comments: u64,
+    /// The language this file is written in when its name does not say so (`-E` mappings): an
+    /// extension such as "md" or "py". None: the file's own extension decides.
+    #[serde(default)]
+    pub lang: Option<String>,
+}
+
+impl FileSpec {
+    /// The path-like key that decides comment syntax and wrapper of this file.
+    pub fn written_as(&self) -> String {
+        match &self.lang {
+            Some(l) => format!("x.{l}"),
+            None => self.path.clone(),
+        }
+    }
 }
 
 /// The one-line change an `Insert` section describes.
@@ -584,8 +598,8 @@ fn render_block(
 }
 
 pub fn render_file(f: &FileSpec, poisoned: bool) -> RenderedFile {
-    let leader = comment_leader(&f.path);
-    let wrapper = wrapper_for(&f.path);
+    let leader = comment_leader(&f.written_as());
+    let wrapper = wrapper_for(&f.written_as());
     let mut lines: Vec<String> = Vec::new();
     let mut blocks = Vec::new();
     match wrapper {
